@@ -24,7 +24,7 @@ def program():
     global _prog
     if _prog is None:
         path, _ = dump.mir_path()
-        want = lambda n: n.startswith(("constant::", "executor::eval", "expression::", "scalar::", "il::")) or "lib/memory/value.rs" in n
+        want = lambda n: n.startswith(("constant::", "executor::eval", "expression::", "scalar::", "il::", "const constant::", "const expression::", "const executor::", "const il::")) or "lib/memory/value.rs" in n
         _prog = I.Program(path, "/repo/lib", want)
     return _prog
 
@@ -78,10 +78,13 @@ def check_binop(item):
     if bits == rbits:
         if op in ("divu", "modu", "divs", "mods") and it.div_mode == "uf":
             f = M.uf(it, {"divu": "udiv", "modu": "urem", "divs": "sdiv", "mods": "srem"}[op])
-            if op in ("divu", "modu"):
-                expected = z3.Extract(bits - 1, 0, f(z3.ZeroExt(W - bits, a), z3.ZeroExt(W - bits, b)))
-            else:
-                expected = z3.Extract(bits - 1, 0, f(z3.SignExt(W - bits, a), z3.SignExt(W - bits, b)))
+            ext = z3.ZeroExt if op in ("divu", "modu") else z3.SignExt
+            xa, xb = ext(W - bits, a), ext(W - bits, b)
+            expected = z3.Extract(bits - 1, 0, f(xa, xb))
+            # tie the uninterpreted function to real division for the reference's own operands, so that code
+            # which divides natively is compared with the real quotient (possibly undecided), never with a free symbol
+            real = {"divu": z3.UDiv(xa, xb), "modu": z3.URem(xa, xb), "divs": xa / xb, "mods": z3.SRem(xa, xb)}[op]
+            inv = z3.And(inv, z3.Implies(xb != 0, f(xa, xb) == real))
         else:
             expected = ilsem.z3_binop(op, a, b)
     classes = shift_classes(bits, b) if op in ("shl", "shr", "ashr") and bits == rbits else {"any": z3.BoolVal(True)}
@@ -283,7 +286,10 @@ def check_eval(item):
         elif opn in ("divu", "modu", "divs", "mods") and it.div_mode == "uf":
             f = M.uf(it, {"divu": "udiv", "modu": "urem", "divs": "sdiv", "mods": "srem"}[opn])
             ext = z3.ZeroExt if opn in ("divu", "modu") else z3.SignExt
-            exp = z3.Extract(bits - 1, 0, f(ext(W - bits, a), ext(W - bits, b)))
+            xa, xb = ext(W - bits, a), ext(W - bits, b)
+            exp = z3.Extract(bits - 1, 0, f(xa, xb))
+            real = {"divu": z3.UDiv(xa, xb), "modu": z3.URem(xa, xb), "divs": xa / xb, "mods": z3.SRem(xa, xb)}[opn]
+            pc = pc + [z3.Implies(xb != 0, f(xa, xb) == real)]
         else:
             exp = ilsem.z3_binop(opn, a, b)
         if exp is None:
@@ -458,6 +464,9 @@ def main():
             fns.setdefault(c, "inlined")
         for u in r["undecided"]:
             rep.count("undecided"); rep.undecided.append(f"{r['op']}@{r['bits']}: {u}")
+            if "unsupported" in u:
+                # the code left the fragment the interpreter can execute: nothing can be claimed for it
+                rep.encoder_defect(f"{r['op']}@{r['bits']}: {u}")
         if r["unsat"] and len(rep.samples) < 8 and not r["findings"]:
             rep.sample({"function": r["op"], "width": r["bits"], "paths": r["paths"], "obligations_unsat": r["unsat"], "division": r["div_mode"]})
         for f in r["findings"]:
